@@ -64,9 +64,7 @@ pub const OP_UNLINKAT: u8 = 36;
 pub const OP_MKDIRAT: u8 = 37;
 pub const OP_SOCKET: u8 = 45;
 
-pub const SQE_FIXED_FILE: u8 = 1;
 pub const SQE_IO_LINK: u8 = 4;
-pub const SQE_ASYNC: u8 = 16;
 
 pub const ECANCELED: i32 = libc::ECANCELED;
 
@@ -146,19 +144,6 @@ pub fn fstat(fd: i32) -> Option<libc::stat> {
     unsafe {
         let mut st: libc::stat = core::mem::zeroed();
         if libc::fstat(fd, &mut st) == 0 {
-            Some(st)
-        } else {
-            None
-        }
-    }
-}
-
-pub fn stat_path(p: &[u8], follow: bool) -> Option<libc::stat> {
-    unsafe {
-        let c = cstr(p);
-        let mut st: libc::stat = core::mem::zeroed();
-        let r = if follow { libc::stat(c.as_ptr(), &mut st) } else { libc::lstat(c.as_ptr(), &mut st) };
-        if r == 0 {
             Some(st)
         } else {
             None
